@@ -161,6 +161,7 @@ INVARIANT Sorted
 INVARIANT Aligned
 INVARIANT Stable
 INVARIANT Complete
+PROPERTY RejectKeeps
 INVARIANT EmitCase
 """
 
@@ -174,10 +175,32 @@ def dynamics_job(case):
     want = [tuple(x) for x in probes.norm_seq(case["content"])]
     d = Dynamics()
     m = MeanFieldDynamics()
+    rejects = {}
+    for r_ in probes.norm_seq(case.get("rejects", [])):
+        rejects.setdefault(int(r_[0]), []).append((r_[1], r_[2]))
+
+    def try_invalid(k):
+        for t, kind in rejects.get(k, []):
+            good = np.array([[9.0, 0.0], [0.0, -9.0]], dtype=complex)
+            bad_state = np.ones((3, 3), dtype=complex) if kind == "shape" else good
+            for obj, args in ((d, (0.25 * t, bad_state)) if kind == "shape" else (None, None),
+                              (m, (0.25 * t, [bad_state, good[:1, :1]] if kind != "count" else [good], "x" if kind == "field" else 1.0))):
+                if obj is None:
+                    continue
+                try:
+                    obj.add(*args)
+                    out.append({"what": "invalid-add-accepted", "kind": kind, "object": type(obj).__name__})
+                except (AssertionError, TypeError, ValueError, IndexError):
+                    pass
     for tag, t in enumerate(adds, start=1):
         st = np.array([[tag, 0.0], [0.0, -tag]], dtype=complex)
         d.add(0.25 * t, st)
         m.add(0.25 * t, [st, st[:1, :1] * 2], complex(tag, -tag))
+        try_invalid(tag)
+    if not (len(m.times) == len(m.fields) == len(m.system_dynamics[0].times) == len(m.system_dynamics[1].times)):
+        out.append({"what": "meanfield-dynamics-misaligned-after-a-rejected-add",
+                    "lengths": [len(m.times), len(m.fields), len(m.system_dynamics[0].times), len(m.system_dynamics[1].times)]})
+        return out
     got = [(int(round(t / 0.25)), int(round(s[0, 0].real))) for t, s in zip(d.times, d.states)]
     if got != want:
         out.append({"what": "dynamics-content", "expected": want, "observed": got})
@@ -193,7 +216,7 @@ def run(ctx):
     dr = ctx.tlc("DynamicsObj", DYN_CFG, label="Dynamics containers: every order of add()", workers=4,
                  constants={"Times": "{-1, 0, 1, 2}", "MaxAdds": "4" if quick else "5", "Emit": "TRUE"})
     for c, mm in zip(dr.cases, core.pmap(dynamics_job, dr.cases, chunksize=16)):
-        ctx.case({"adds": c["adds"]}, nontrivial=list(c["adds"]) != sorted(c["adds"]))
+        ctx.case({"adds": c["adds"], "rejects": c.get("rejects", [])}, nontrivial=list(c["adds"]) != sorted(c["adds"]))
         for x in mm:
             ctx.violation("C13:Dynamics.add:%s" % x["what"], "adds=%s: %s" % (c["adds"], x), {"dynamics": c})
     apis_all = ["tempo", "mftempo", "pttempo", "cd", "cdf", "grad", "tebd"]
@@ -225,6 +248,11 @@ def run(ctx):
         for x in mm:
             key = "C13:%s:%s" % (c["api"] + ("" if c["recAll"] else ":final-only"), x["what"])
             ctx.violation(key, "%s %s" % (cid, x), {"case": c, "tick": tick})
+    # ---- code -> spec: every compute call of the repository's own tests and of a randomised driver, validated by TLC
+    # against TraceRun.tla (Target: floor((target - start) / dt) steps with on-grid targets included; Records: one
+    # sorted, aligned time point per step)
+    from harness import trace_validate
+    trace_validate.run(ctx, "C13", light=True)
     ctx.rule = ("every terminal state of TimeGrid.tla: api x dt (ticks) x start x m x off-grid offset x record_all; "
                 "ticks mapped to decimal literals; all are non-trivial (m >= 1)")
     ctx.exhaustive = True
@@ -232,6 +260,10 @@ def run(ctx):
 
 
 def replay(ctx, rep):
+    if "trace_events" in rep["case"]:
+        from harness import trace_validate
+        trace_validate.replay(ctx, rep["case"], "C13")
+        return
     core._init_worker()
     c = rep["case"]
     if "dynamics" in c:
